@@ -5,11 +5,13 @@ package main
 // Real websocket.Conn objects (public NewServerConn / NewClientConn) over a gated recording conn; the tracking
 // allocator is the Engine's BodyAllocator and mempool.DefaultMemPool.
 //
-//	C ws client=<0|1> async=<0|1> qmax=<n> rp=<0|1> blk=<0|1> df=<0|1> bad=<offset of the invalid frame|-1> fail=<k> rc=<0|1>
+//	C ws client=<0|1> async=<0|1> qmax=<n> rp=<0|1> blk=<0|1> df=<0|1> bad=<offset of the invalid frame|-1> fail=<k> rc=<0|1> qx=<0|1>
+//	                 qx=1: the executor only QUEUES the handler jobs (a conn served by a poller); J runs them, oldest first
 //	D <hex>          Parse(segment)
 //	S <opcode> <n>   WriteMessage(opcode, n pattern bytes)
 //	G <ok|err>       async: let the conn write that is in flight finish (ok / with an error); the sender goroutine
 //	                 then frees the frame and takes the next one (which blocks at the gate again) or exits
+//	J                the executor runs the queued handler jobs
 //	X                CloseAndClean (what the engine runs when the connection closes)
 //
 //	R <ok|err|closed> cache=<n> msg=<n> dl=<delivered payload sizes> tr=<events>      (D)
@@ -156,12 +158,12 @@ func execWS(e *lp.Exec, cline string, lines []string, tr *track.Tracker, lg *nul
 	u.BlockingModAsyncCloseDelay = time.Hour
 	var delivered []string
 	u.OnMessage(func(c *websocket.Conn, mt websocket.MessageType, data []byte) {
-		tr.CheckSlice(data, "OnMessage payload")
+		tr.CheckSlice(data, "payload handed to OnMessage (freed before the handler ran?)")
 		delivered = append(delivered, fmt.Sprintf("m%d", len(data)))
 	})
 	if b("df") {
 		u.OnDataFrame(func(c *websocket.Conn, mt websocket.MessageType, fin bool, data []byte) {
-			tr.CheckSlice(data, "OnDataFrame payload")
+			tr.CheckSlice(data, "payload handed to OnDataFrame (freed before the handler ran?)")
 			delivered = append(delivered, fmt.Sprintf("f%d", len(data)))
 		})
 	}
@@ -174,9 +176,15 @@ func execWS(e *lp.Exec, cline string, lines []string, tr *track.Tracker, lg *nul
 	ws.VerifSetModes(b("blk"), b("rp"))
 	closedFlag := false
 	dead := false
+	queuedExec := b("qx")
+	var jobs []func()
 	ws.Execute = func(fn func()) bool {
 		if closedFlag {
 			return false
+		}
+		if queuedExec {
+			jobs = append(jobs, fn) // runs later: the job owns what it captured until then
+			return true
 		}
 		fn()
 		return true
@@ -386,6 +394,27 @@ func execWS(e *lp.Exec, cline string, lines []string, tr *track.Tracker, lg *nul
 			owners()
 			e.P("S err=none %s tr=%s", qstate(), tr.TakeTrace())
 			fmt.Fprintf(&key, "G%s,", ff[1])
+		case ff[0] == "J":
+			delivered = nil
+			a0 := gc.arrived()
+			n0, _ := slots()
+			todo := jobs
+			jobs = nil
+			for _, fn := range todo {
+				fn()
+			}
+			afterEnqueue(a0, n0)
+			owners()
+			checkPongs()
+			dl := strings.Join(delivered, ",")
+			if dl == "" {
+				dl = "-"
+			}
+			if len(todo) > 0 {
+				nontrivial = true
+			}
+			e.P("J dl=%s %s tr=%s", dl, qstate(), tr.TakeTrace())
+			fmt.Fprintf(&key, "J%d,", len(todo))
 		case ff[0] == "X":
 			ws.CloseAndClean(errors.New("closed"))
 			closedFlag = true
@@ -396,6 +425,18 @@ func execWS(e *lp.Exec, cline string, lines []string, tr *track.Tracker, lg *nul
 		}
 	}
 	// let a sender goroutine that is still in flight finish, then close
+	for i := 0; i < 64 && gc.inFlight() != nil; i++ {
+		openGate(nil)
+	}
+	if len(jobs) > 0 { // jobs still queued run before the end (they own their payloads)
+		a0 := gc.arrived()
+		n0, _ := slots()
+		for _, fn := range jobs {
+			fn()
+		}
+		jobs = nil
+		afterEnqueue(a0, n0)
+	}
 	for i := 0; i < 64 && gc.inFlight() != nil; i++ {
 		openGate(nil)
 	}
@@ -503,8 +544,10 @@ func genWS(g *lp.Gen) {
 	if g.Chance(1, 5) && len(stream) > 4 { // truncated: close during assembly / with cached bytes
 		stream = stream[:len(stream)-1-g.Intn(len(stream)/2)]
 	}
-	g.P("C ws client=%d async=%d qmax=%d rp=%d blk=%d df=%d bad=%d fail=%d rc=%d", bi(client), bi(async), qmax,
-		bi(g.Chance(2, 3)), bi(g.Chance(1, 2)), bi(g.Chance(1, 3)), bad, fail, bi(g.Chance(1, 4)))
+	blk := g.Chance(1, 2)
+	qx := !blk && g.Chance(1, 2) // a conn served by a poller: Execute queues the handler jobs
+	g.P("C ws client=%d async=%d qmax=%d rp=%d blk=%d df=%d bad=%d fail=%d rc=%d qx=%d", bi(client), bi(async), qmax,
+		bi(g.Chance(2, 3)), bi(blk), bi(g.Chance(1, 3)), bad, fail, bi(g.Chance(1, 4)), bi(qx))
 	rest := stream
 	nops := 3 + g.Intn(10)
 	closedAt := -1
@@ -514,6 +557,10 @@ func genWS(g *lp.Gen) {
 	for i := 0; i < nops; i++ {
 		if i == closedAt {
 			g.P("X")
+			continue
+		}
+		if qx && g.Chance(1, 4) {
+			g.P("J")
 			continue
 		}
 		switch g.Intn(6) {
